@@ -301,36 +301,107 @@ theorem Index.discard_all_spec (o : O) (ix : Index K V O) (hi : ix.Inv) :
 /-- forward lookup on a bare items dict -/
 def ival (items : List (K × Store O V)) (k : K) (o : O) : Option V := (aget k items).bind (aget o)
 
-theorem replaceLoop_spec (o : O) (m : List (K × V)) :
+omit [DecidableEq K] in
+theorem Store.replace_get (veq : V → V → Bool) (o o' : O) (v : V) (st : Store O V) :
+    aget o' (Store.replace veq o v st) = if o' = o then some (keepOld veq (aget o st) v) else aget o' st := by
+  unfold Store.replace keepOld
+  cases h : aget o st with
+  | none =>
+    simp only [aget_aset]
+  | some v' =>
+    by_cases hv : veq v' v = true
+    · simp only [hv, if_true]
+      by_cases ho : o' = o
+      · subst ho; simp [h]
+      · simp [ho]
+    · show aget o' (if veq v' v = true then st else aset o v st) =
+        if o' = o then some (if veq v' v = true then v' else v) else aget o' st
+      rw [if_neg hv, if_neg hv, aget_aset]
+
+omit [DecidableEq K] in
+theorem Store.replace_ne_nil (veq : V → V → Bool) (o : O) (v : V) (st : Store O V) :
+    Store.replace veq o v st ≠ [] := by
+  unfold Store.replace
+  cases h : aget o st with
+  | none => exact aset_ne_nil _ _ _
+  | some v' =>
+    by_cases hv : veq v' v = true
+    · simp only [hv, if_true]
+      intro hnil
+      simp [hnil] at h
+    · simp only [hv]
+      exact aset_ne_nil _ _ _
+
+theorem foldVal_not_mem {κ ν : Type} [DecidableEq κ] (veq : ν → ν → Bool) (k : κ) (m : List (κ × ν)) :
+    ∀ cur, k ∉ m.map Prod.fst → foldVal veq k m cur = cur := by
+  induction m with
+  | nil => intro cur _; rfl
+  | cons p r ih =>
+    obtain ⟨k', v⟩ := p
+    intro cur h
+    simp only [List.map_cons, List.mem_cons, not_or] at h
+    simp only [foldVal, Ne.symm h.1, if_false]
+    exact ih cur h.2
+
+theorem foldVal_isSome_of_isSome {κ ν : Type} [DecidableEq κ] (veq : ν → ν → Bool) (k : κ) (m : List (κ × ν)) :
+    ∀ cur : Option ν, cur.isSome → (foldVal veq k m cur).isSome := by
+  induction m with
+  | nil => intro cur h; exact h
+  | cons p r ih =>
+    obtain ⟨k', v⟩ := p
+    intro cur h
+    simp only [foldVal]
+    apply ih
+    by_cases hk : k' = k <;> simp [hk, h]
+
+theorem foldVal_isSome_of_mem {κ ν : Type} [DecidableEq κ] (veq : ν → ν → Bool) (k : κ) (m : List (κ × ν)) :
+    ∀ cur : Option ν, k ∈ m.map Prod.fst → (foldVal veq k m cur).isSome := by
+  induction m with
+  | nil => intro cur h; simp at h
+  | cons p r ih =>
+    obtain ⟨k', v⟩ := p
+    intro cur h
+    simp only [foldVal]
+    by_cases hk : k' = k
+    · simp only [hk, if_true]
+      exact foldVal_isSome_of_isSome veq k r _ (by simp)
+    · simp only [hk, if_false]
+      apply ih
+      simp only [List.map_cons, List.mem_cons] at h
+      rcases h with h | h
+      · exact absurd h.symm hk
+      · exact h
+
+theorem replaceLoop_spec (veq : V → V → Bool) (o : O) (m : List (K × V)) :
     ∀ (items : List (K × Store O V)) (rev : List K),
       (∀ k st, aget k items = some st → st ≠ []) → rev.Nodup →
-      (∀ k st, aget k (replaceLoop o m (items, rev)).1 = some st → st ≠ []) ∧
-      (replaceLoop o m (items, rev)).2.Nodup ∧
-      (∀ k, k ∈ (replaceLoop o m (items, rev)).2 ↔ k ∈ rev ∨ k ∈ m.map Prod.fst) ∧
-      (∀ k o', ival (replaceLoop o m (items, rev)).1 k o' =
-        if o' = o then (match lastval k m with | some v => some v | none => ival items k o)
-        else ival items k o') := by
+      (∀ k st, aget k (replaceLoop veq o m (items, rev)).1 = some st → st ≠ []) ∧
+      (replaceLoop veq o m (items, rev)).2.Nodup ∧
+      (∀ k, k ∈ (replaceLoop veq o m (items, rev)).2 ↔ k ∈ rev ∨ k ∈ m.map Prod.fst) ∧
+      (∀ k o', ival (replaceLoop veq o m (items, rev)).1 k o' =
+        if o' = o then foldVal veq k m (ival items k o) else ival items k o') := by
   induction m with
   | nil =>
     intro items rev hs hn
     refine ⟨by simpa [replaceLoop] using hs, by simpa [replaceLoop] using hn, by simp [replaceLoop], ?_⟩
     intro k o'
-    by_cases ho : o' = o <;> simp [replaceLoop, lastval, ho]
+    by_cases ho : o' = o <;> simp [replaceLoop, foldVal, ho]
   | cons p rest ih =>
     obtain ⟨k0, v0⟩ := p
     intro items rev hs hn
-    have hstep : replaceLoop o ((k0, v0) :: rest) (items, rev) =
-        replaceLoop o rest (aset k0 (aset o v0 (match aget k0 items with | some st => st | none => [])) items,
-                            sadd k0 rev) := rfl
+    obtain ⟨st0, hst0⟩ : ∃ st0 : Store O V, st0 = (match aget k0 items with | some st => st | none => []) :=
+      ⟨_, rfl⟩
+    have hstep : replaceLoop veq o ((k0, v0) :: rest) (items, rev) =
+        replaceLoop veq o rest (aset k0 (Store.replace veq o v0 st0) items, sadd k0 rev) := by
+      rw [hst0]; rfl
     rw [hstep]
-    have hs' : ∀ k st, aget k (aset k0 (aset o v0 (match aget k0 items with | some st => st | none => [])) items)
-        = some st → st ≠ [] := by
+    have hs' : ∀ k st, aget k (aset k0 (Store.replace veq o v0 st0) items) = some st → st ≠ [] := by
       intro k st h
       rw [aget_aset] at h
       by_cases hk : k = k0
       · simp only [hk, if_true, Option.some.injEq] at h
         subst h
-        exact aset_ne_nil _ _ _
+        exact Store.replace_ne_nil _ _ _ _
       · simp only [hk, if_false] at h
         exact hs k st h
     obtain ⟨a, b, c, d⟩ := ih _ _ hs' (nodup_sadd k0 rev hn)
@@ -349,61 +420,59 @@ theorem replaceLoop_spec (o : O) (m : List (K × V)) :
         · exact Or.inr h
     · intro k o'
       rw [d k o']
-      have hi1 : ∀ o'', ival (aset k0 (aset o v0 (match aget k0 items with | some st => st | none => [])) items) k o''
-          = if k = k0 then (if o'' = o then some v0 else ival items k o'') else ival items k o'' := by
+      have hst0get : ∀ o'', aget o'' st0 = ival items k0 o'' := by
+        intro o''
+        rw [hst0]
+        unfold ival
+        cases aget k0 items <;> simp [aget]
+      have hi1 : ∀ o'', ival (aset k0 (Store.replace veq o v0 st0) items) k o''
+          = if k = k0 then (if o'' = o then some (keepOld veq (ival items k o) v0) else ival items k o'')
+            else ival items k o'' := by
         intro o''
         unfold ival
         rw [aget_aset]
         by_cases hk : k = k0
         · subst hk
-          simp only [if_true, Option.bind, aget_aset]
-          by_cases ho : o'' = o
-          · simp [ho]
-          · simp only [ho, if_false]
-            cases aget k items <;> simp
+          simp only [if_true, Option.bind_some, Store.replace_get, hst0get]
+          rfl
         · simp [hk]
       by_cases ho : o' = o
       · subst ho
-        simp only [if_true, lastval]
-        cases hl : lastval k rest with
-        | some x => simp
-        | none =>
-          rw [hi1]
-          by_cases hk : k = k0
-          · subst hk; simp
-          · simp [hk, Ne.symm hk]
+        simp only [if_true, foldVal]
+        rw [hi1]
+        by_cases hk : k = k0
+        · subst hk; simp
+        · simp [hk, Ne.symm hk]
       · simp only [ho, if_false]
         rw [hi1]
         simp [ho]
 
-theorem lastval_none_of_not_mem {κ ν : Type} [DecidableEq κ] (k : κ) (m : List (κ × ν))
-    (h : k ∉ m.map Prod.fst) : lastval k m = none := by
-  cases hl : lastval k m with
-  | none => rfl
-  | some v =>
-    have := (lastval_isSome k m).1 (by simp [hl])
-    exact absurd this h
-
 /-- Specification of `_replace(acckey, m)` under the invariant: afterwards the object's values are
-    exactly those of `m`, every other object is untouched, the invariant holds again. -/
-theorem Index.replace_spec (o : O) (m : List (K × V)) (ix : Index K V O) (hi : ix.Inv) :
-    ∃ ix', ix.replace o m = some ix' ∧ ix'.Inv ∧
-      (∀ k o', ix'.val k o' = if o' = o then lastval k m else ix.val k o') := by
-  let rev0 : List K := match aget o ix.reverse with | some r => r | none => []
-  have hrev0 : rev0 = ix.rkeys o := rfl
+    those of `m` merged over what was stored (`foldVal`: a new value Python-equal to the stored one
+    leaves the stored one), keys outside `m` are gone, every other object is untouched, and the
+    invariant holds again. -/
+theorem Index.replace_spec (veq : V → V → Bool) (o : O) (m : List (K × V)) (ix : Index K V O) (hi : ix.Inv) :
+    ∃ ix', ix.replace veq o m = some ix' ∧ ix'.Inv ∧
+      (∀ k o', ix'.val k o' =
+        if o' = o then (if k ∈ m.map Prod.fst then foldVal veq k m (ix.val k o) else none)
+        else ix.val k o') := by
+  obtain ⟨rev0, hrev0d⟩ : ∃ rev0 : List K, rev0 = (match aget o ix.reverse with | some r => r | none => []) :=
+    ⟨_, rfl⟩
+  have hrev0 : rev0 = ix.rkeys o := hrev0d
   have hn0 : rev0.Nodup := by
-    show (match aget o ix.reverse with | some r => r | none => []).Nodup
+    rw [hrev0d]
     cases h : aget o ix.reverse with
     | none => simp
     | some r => exact hi.revNodup o r h
-  obtain ⟨a, b, c, d⟩ := replaceLoop_spec o m ix.items rev0 hi.storeNe hn0
-  let r := replaceLoop o m (ix.items, rev0)
-  let ix1 : Index K V O := { items := r.1, reverse := aset o r.2 ix.reverse }
-  have hix1rev : aget o ix1.reverse = some r.2 := aget_aset_same _ _ _
+  obtain ⟨a, b, c, d⟩ := replaceLoop_spec veq o m ix.items rev0 hi.storeNe hn0
+  obtain ⟨r, hr⟩ : ∃ r, r = replaceLoop veq o m (ix.items, rev0) := ⟨_, rfl⟩
+  rw [← hr] at a b c d
+  obtain ⟨ix1, hix1⟩ : ∃ ix1 : Index K V O, ix1 = { items := r.1, reverse := aset o r.2 ix.reverse } := ⟨_, rfl⟩
+  have hix1rev : aget o ix1.reverse = some r.2 := by rw [hix1]; exact aget_aset_same _ _ _
   have hval1 : ∀ k o', ix1.val k o' =
-      if o' = o then (match lastval k m with | some v => some v | none => ix.val k o) else ix.val k o' := by
+      if o' = o then foldVal veq k m (ix.val k o) else ix.val k o' := by
     intro k o'
-    rw [Index.val_eq, Index.val_eq, Index.val_eq]
+    rw [Index.val_eq, Index.val_eq, Index.val_eq, hix1]
     exact d k o'
   have hc1 : ix1.Cons := by
     intro k o'
@@ -412,19 +481,14 @@ theorem Index.replace_spec (o : O) (m : List (K × V)) (ix : Index K V O) (hi : 
     · subst ho
       rw [rkeys_of_rev hix1rev, c k, hrev0, hi.cons k o']
       simp only [if_true]
-      have hl := lastval_isSome k m
-      cases hlv : lastval k m with
-      | some v =>
-        have : k ∈ m.map Prod.fst := hl.1 (by simp [hlv])
-        simp [this]
-      | none =>
-        have : k ∉ m.map Prod.fst := fun hm => by have := hl.2 hm; simp [hlv] at this
-        simp [this]
+      by_cases hkm : k ∈ m.map Prod.fst
+      · simp [hkm, foldVal_isSome_of_mem veq k m _ hkm]
+      · simp [hkm, foldVal_not_mem veq k m _ hkm]
     · have : ix1.rkeys o' = ix.rkeys o' := by
-        simp [Index.rkeys, ix1, aget_aset_other _ _ ho]
+        simp [Index.rkeys, hix1, aget_aset_other _ _ ho]
       rw [this]
       simp [ho, hi.cons k o']
-  have hs1 : ix1.StoreNe := a
+  have hs1 : ix1.StoreNe := by rw [hix1]; exact a
   have hn1 : ix1.RevNodup := by
     intro o' r' h
     by_cases ho : o' = o
@@ -432,24 +496,27 @@ theorem Index.replace_spec (o : O) (m : List (K × V)) (ix : Index K V O) (hi : 
       rw [hix1rev] at h
       cases h
       exact b
-    · simp only [ix1, aget_aset_other _ _ ho] at h
+    · simp only [hix1, aget_aset_other _ _ ho] at h
       exact hi.revNodup o' r' h
   have hne1 : ∀ o', o' ≠ o → ∀ r', aget o' ix1.reverse = some r' → r' ≠ [] := by
     intro o' ho r' h
-    simp only [ix1, aget_aset_other _ _ ho] at h
+    simp only [hix1, aget_aset_other _ _ ho] at h
     exact hi.revNe o' r' h
-  let ks := r.2.filter (fun k => !(m.map Prod.fst).contains k)
+  obtain ⟨ks, hksd⟩ : ∃ ks, ks = r.2.filter (fun k => !(m.map Prod.fst).contains k) := ⟨_, rfl⟩
   have hks_mem : ∀ k, k ∈ ks ↔ k ∈ r.2 ∧ k ∉ m.map Prod.fst := by
     intro k
-    simp [ks, List.mem_filter]
+    simp [hksd, List.mem_filter]
   obtain ⟨ix', h1, h2, h3, h4, h5, h6, h7⟩ :=
     Index.discard_spec o (some ks) ix1 hc1 hs1 hn1 hne1
       (by
         intro k hk
         rw [rkeys_of_rev hix1rev]
         exact ((hks_mem k).1 hk).1)
-      (List.Nodup.sublist List.filter_sublist b)
-  refine ⟨ix', h1, ⟨h2, h3, ?_, h4⟩, ?_⟩
+      (by rw [hksd]; exact List.Nodup.sublist List.filter_sublist b)
+  have hrep : ix.replace veq o m = ix1.discard o (some ks) := by
+    rw [hksd, hix1, hr, hrev0d]
+    rfl
+  refine ⟨ix', by rw [hrep]; exact h1, ⟨h2, h3, ?_, h4⟩, ?_⟩
   · intro o' r' hr'
     by_cases ho : o' = o
     · subst ho; exact h6 r' hr'
@@ -459,22 +526,18 @@ theorem Index.replace_spec (o : O) (m : List (K × V)) (ix : Index K V O) (hi : 
     by_cases ho : o' = o
     · subst ho
       simp only [true_and, if_true, dkeys]
-      by_cases hk : k ∈ ks
-      · have := ((hks_mem k).1 hk).2
-        simp [hk, lastval_none_of_not_mem k m this]
-      · simp only [hk, if_false]
-        cases hlv : lastval k m with
-        | some v => rfl
-        | none =>
+      by_cases hkm : k ∈ m.map Prod.fst
+      · have hk : k ∉ ks := fun hk => ((hks_mem k).1 hk).2 hkm
+        simp [hk, hkm]
+      · simp only [hkm, if_false]
+        by_cases hk : k ∈ ks
+        · simp [hk]
+        · simp only [hk, if_false]
           -- `k` is no key of `m` and not in the difference set, hence not in the reverse set at all
-          have hkm : k ∉ m.map Prod.fst := fun hm => by
-            have := (lastval_isSome k m).2 hm; simp [hlv] at this
-          have hkr : k ∉ r.2 := fun hr => hk ((hks_mem k).2 ⟨hr, hkm⟩)
+          rw [foldVal_not_mem veq k m _ hkm]
+          have hkr : k ∉ r.2 := fun hr' => hk ((hks_mem k).2 ⟨hr', hkm⟩)
           have hk0 : k ∉ ix.rkeys o' := fun h0 => hkr ((c k).2 (Or.inl (hrev0 ▸ h0)))
-          have : ¬ (ix.val k o').isSome := by rw [← hi.cons k o']; exact hk0
-          cases hv : ix.val k o' with
-          | none => rfl
-          | some v => simp [hv] at this
+          exact val_none_of_not_rkeys hi.cons hk0
     · simp [ho]
 
 end Idx
